@@ -233,6 +233,9 @@ PluginDtor(serial) ==
 Install(cfg, hks, t0, w0) ==
   /\ phase = "boot"
   /\ PendIds = FlattenSeq([i \in DOMAIN cfg |-> PlugIds(cfg[i])])
+  \* the objects of the base configuration are constructed with the "cgroup" argument as configured ("" = none)
+  /\ LET want == FlattenSeq([i \in DOMAIN cfg |-> PlugCgs(cfg[i], "")]) IN
+       \A i \in DOMAIN pend : "cg" \in DOMAIN pend[i] => pend[i].cg = want[i]
   /\ defs' = [i \in DOMAIN cfg |-> Bind(cfg[i])]
   /\ st' = [i \in DOMAIN cfg |-> FreshSt]
   /\ lastStop' = [i \in DOMAIN cfg |-> NoStop]
